@@ -826,7 +826,7 @@ class Interp:
         self.check_invariants(spec, env, 'entry')
         self.loop_havoc(st, env, spec)
         self.assume_invariants(spec, env)
-        dec0 = self.eval_spec(spec.decreases, env) if spec.decreases else None
+        dec0 = self.eval_spec_value(spec.decreases, env) if spec.decreases else None
         prog0 = self.eval_spec_value(spec.progress, env) if getattr(spec, 'progress', None) else None
         if self.truth(self.eval(st.test, env)):
             try:
@@ -841,7 +841,7 @@ class Interp:
                 self.oblige('%s::loop%s.every-pass-makes-progress' % (self.cur_func_name(), spec.ordinal),
                             to_term(prog1, 'int') > to_term(prog0, 'int'), kind='decreases')
             if dec0 is not None:
-                dec1 = self.eval_spec(spec.decreases, env)
+                dec1 = self.eval_spec_value(spec.decreases, env)
                 self.oblige('%s::loop%s.decreases' % (self.cur_func_name(), spec.ordinal),
                             z3.And(to_term(dec1, 'int') < to_term(dec0, 'int'), to_term(dec0, 'int') >= 0),
                             kind='decreases')
